@@ -96,7 +96,10 @@ class C16(core.Check):
         "triples a<=b<=c, query points near and far (no near-ties); linear / spline: interpolated curves over such point "
         "sets, parameter pairs and triples in [0,1], splits at and between knots, near queries; analytic: LineCurve, "
         "CircleCurve (away from the seam) and a helix with recorded parameter calls; edge: OnCurveEdge over every curve "
-        "type with vertices on the curve, Spline/PolyLine edges; bad: parameters outside the bounds. Non-trivial = every "
+        "type with vertices on the curve, Spline/PolyLine edges; tf: linear/spline curves right after translate/rotate/scale/"
+        "mirror/shear (method or transformation list), every question asked on a newly transformed curve; edge_hist: a curve edge "
+        "observed, its vertices moved along the curve, observed again; analytic curves also with bounds not starting at 0 and "
+        "parameters exactly 0 / exactly the bounds / equal; bad: parameters outside the bounds. Non-trivial = every "
         "case; distinct = different input."
     )
     assumptions = [
@@ -208,13 +211,24 @@ class C16(core.Check):
                     nrm = [r[1], -r[0], 0.0] if abs(r[2]) > 0.5 * R else [0.0, r[2], -r[1]]
                 c["normal"] = nrm
                 c["bounds"] = [0.0, 2 * math.pi]
+                if rng.random() < 0.5:  # an arc whose parameter range does not start at 0 (no seam inside)
+                    lo_ = -rng.uniform(0.5, 2.0)
+                    c["bounds"] = [lo_, lo_ + rng.uniform(2.5, 5.5)]
             else:
                 c["r"], c["h"] = rng.uniform(0.5, 3), rng.uniform(0.1, 1)
-                c["bounds"] = [0.0, rng.uniform(2, 9)]
+                c["bounds"] = [0.0 if rng.random() < 0.5 else -rng.uniform(0.5, 2.0), rng.uniform(2, 9)]
             lo, hi = c["bounds"]
             m = 0.08 * (hi - lo)  # stay away from the seam / the ends
             c["pairs"] = self._pairs(rng, lo + m, hi - m, 4)
             c["triples"] = self._triples(rng, lo + m, hi - m, 3)
+            # boundary values: exactly the bounds, equal parameters, and an explicit parameter of exactly 0
+            x = rng.uniform(lo + m, hi - m)
+            c["pairs"] += [[lo, hi], [hi, lo], [x, x]]
+            if lo < 0.0 < hi:
+                c["pairs"] += [[0.0, x], [x, 0.0], [0.0, 0.0], [0.0, hi]]
+                c["triples"] += [[lo, 0.0, hi], sorted([0.0, x, hi])]
+            else:
+                c["triples"] += [[lo, x, hi]]
             c["tq"] = [rng.uniform(lo + m, hi - m) for _ in range(3)]
             c["off"] = [[rng.uniform(-0.02, 0.02) for _ in range(3)] for _ in range(3)]
             cases.append(c)
@@ -244,6 +258,73 @@ class C16(core.Check):
                 c["t"] = [rng.uniform(0.05, 0.95), rng.uniform(0.05, 0.95)]
             if abs(c["t"][0] - c["t"][1]) < 0.02:
                 c["t"][1] = c["t"][0] + (0.3 if c["t"][0] < 0.5 else -0.3) if which != "discrete" else c["t"][1]
+            cases.append(c)
+        # curves that were transformed; every question is asked first thing after the transformation
+        for _ in range(n):
+            kind = rng.choice(["linear", "linear", "spline"])
+            k = rng.randint(4, 8)
+            pts = _uneven_points(rng, k, smooth=(kind == "spline"))
+            ops = []
+            for _i in range(rng.randint(1, 2)):
+                name = rng.choice(["translate", "rotate", "scale", "mirror", "shear", "shear", "shear"])
+                if name == "translate":
+                    ops.append(["translate", [rng.uniform(-5, 5) for _ in range(3)]])
+                elif name == "rotate":
+                    ops.append(["rotate", rng.uniform(-3, 3), self._unit(rng), [rng.uniform(-2, 2) for _ in range(3)]])
+                elif name == "scale":
+                    ops.append(["scale", rng.choice([0.3, 0.5, 1.7, 3.0]), [rng.uniform(-2, 2) for _ in range(3)]])
+                elif name == "mirror":
+                    ops.append(["mirror", self._unit(rng), [rng.uniform(-2, 2) for _ in range(3)]])
+                else:
+                    nrm = self._unit(rng)
+                    d = self._unit(rng)
+                    dot = sum(a * b for a, b in zip(nrm, d))
+                    d = _sub(d, _mul(dot, nrm))  # shear direction in the plane
+                    if math.sqrt(sum(x * x for x in d)) < 0.2:
+                        d = [nrm[1], -nrm[0], 0.0] if abs(nrm[2]) < 0.9 else [0.0, nrm[2], -nrm[1]]
+                    ops.append(["shear", nrm, [rng.uniform(-3, 3) for _ in range(3)], d, rng.uniform(0.5, 1.4)])
+            cases.append(
+                {
+                    "kind": "tf",
+                    "curve": kind,
+                    "points": pts,
+                    "ops": ops,
+                    "mode": rng.choice(["method", "list"]),
+                    "pairs": self._pairs(rng, 0.0, 1.0, 2),
+                    "triple": sorted(rng.uniform(0, 1) for _ in range(3)),
+                    "queries": [
+                        {"seg": rng.randrange(k - 1), "lam": rng.uniform(0.15, 0.85), "off": [rng.uniform(-0.05, 0.05) for _ in range(3)]}
+                        for _ in range(2)
+                    ],
+                }
+            )
+        # edge histories: observe, move the vertices along the curve (as optimizer clamps do), observe again
+        for _ in range(n):
+            which = rng.choice(["linear", "spline", "circle", "line", "helix"])
+            c = {"kind": "edge_hist", "curve": which, "n_points": rng.randint(2, 10)}
+            if which in ("linear", "spline"):
+                c["points"] = _uneven_points(rng, rng.randint(4, 8), smooth=(which == "spline"))
+                lo, hi = 0.0, 1.0
+            elif which == "circle":
+                c["origin"] = [rng.uniform(-5, 5) for _ in range(3)]
+                c["rim"] = _add(c["origin"], [rng.uniform(0.5, 3), 0.0, 0.0])
+                c["normal"] = [0.0, 0.0, rng.choice([1.0, -1.0])]
+                lo, hi = 0.5, 5.7
+            elif which == "line":
+                c["p1"] = [rng.uniform(-5, 5) for _ in range(3)]
+                c["p2"] = _add(c["p1"], [rng.uniform(0.5, 5) for _ in range(3)])
+                lo, hi = 0.0, 1.0
+            else:
+                c["r"], c["h"] = rng.uniform(0.5, 3), rng.uniform(0.1, 1)
+                c["bounds"] = [0.0, rng.uniform(3, 6)]
+                lo, hi = c["bounds"]
+            w = hi - lo
+            steps = []
+            for _i in range(rng.randint(2, 3)):
+                a = rng.uniform(lo + 0.05 * w, lo + 0.45 * w)
+                b = rng.uniform(lo + 0.55 * w, lo + 0.95 * w)
+                steps.append([a, b] if rng.random() < 0.7 else [b, a])
+            c["steps"] = steps
             cases.append(c)
         # malformed / boundary stream: parameters outside the bounds
         for _ in range(max(4, n // 10)):
@@ -346,6 +427,11 @@ class C16(core.Check):
                 out["expected_len"] = float(curve.get_length(case["t"][0], case["t"][1]))
             return out
 
+        if kind == "tf":
+            return self._run_tf(case)
+        if kind == "edge_hist":
+            return self._run_edge_hist(case)
+
         record: List[float] = []
         curve = self._curve(case, record)
         out: dict = {"pairs": [], "triples": [], "queries": []}
@@ -406,6 +492,94 @@ class C16(core.Check):
         out["bounds"] = [float(lo), float(hi)]
         return out
 
+    def _run_tf(self, case: dict) -> Any:
+        import classy_blocks as cb
+
+        fl = lambda p: [float(x) for x in p]
+
+        def fresh():
+            """a newly built and newly transformed curve: whatever is asked next is the first thing asked"""
+            curve = self._curve(case)
+            if case["mode"] == "method":
+                for op in case["ops"]:
+                    if op[0] == "translate":
+                        curve.translate(op[1])
+                    elif op[0] == "rotate":
+                        curve.rotate(op[1], op[2], op[3])
+                    elif op[0] == "scale":
+                        curve.scale(op[1], op[2])
+                    elif op[0] == "mirror":
+                        curve.mirror(op[1], op[2])
+                    else:
+                        curve.shear(op[1], op[2], op[3], op[4])
+            else:
+                tfs = []
+                for op in case["ops"]:
+                    if op[0] == "translate":
+                        tfs.append(cb.Translation(op[1]))
+                    elif op[0] == "rotate":
+                        tfs.append(cb.Rotation(op[2], op[1], op[3]))
+                    elif op[0] == "scale":
+                        tfs.append(cb.Scaling(op[1], op[2]))
+                    elif op[0] == "mirror":
+                        tfs.append(cb.Mirror(op[1], op[2]))
+                    else:
+                        tfs.append(cb.Shear(op[1], op[2], op[3], op[4]))
+                curve.transform(tfs)
+            return curve
+
+        ref = fresh()
+        moved = [fl(p) for p in ref.array.points]
+        ref.get_point(0.5)  # settle the reference
+        scan = [fl(ref.get_point(min(1.0, i / (N_SCAN - 1)))) for i in range(N_SCAN)]
+        own_knots, _, _ = _own_linear(moved)
+        out: dict = {"moved": moved}
+        out["params"] = [float(t) for t in fresh().function.params]
+        out["full"] = float(fresh().length)
+        c = fresh()
+        out["through"] = [fl(c.get_point(min(1.0, t))) for t in own_knots]
+        out["pairs"] = [float(fresh().get_length(a, b)) for a, b in case["pairs"]]
+        a, b, cc = case["triple"]
+        out["triple"] = [float(fresh().get_length(a, b)), float(fresh().get_length(b, cc)), float(fresh().get_length(a, cc))]
+        out["queries"] = []
+        for q in case["queries"]:
+            i = q["seg"]
+            seg = _sub(moved[i + 1], moved[i])
+            h = _dist(moved[i], moved[i + 1])
+            p = _add(_add(moved[i], _mul(q["lam"], seg)), _mul(h, q["off"]))
+            c = fresh()
+            t = float(c.get_closest_param(p))
+            out["queries"].append({"p": p, "t": t, "d": _dist(fl(c.get_point(t)), p), "scan_min": min(_dist(x, p) for x in scan)})
+        return out
+
+    def _run_edge_hist(self, case: dict) -> Any:
+        from classy_blocks.construct import edges
+        from classy_blocks.items.edges.factory import factory
+        from classy_blocks.items.vertex import Vertex
+
+        fl = lambda p: [float(x) for x in p]
+        curve = self._curve(case)
+        t0 = case["steps"][0]
+        v1, v2 = Vertex(fl(curve.get_point(t0[0])), 0), Vertex(fl(curve.get_point(t0[1])), 1)
+        edge = factory.create(v1, v2, edges.OnCurve(curve, n_points=case["n_points"], representation="spline"))
+        steps = []
+        for k, (ta, tb) in enumerate(case["steps"]):
+            if k > 0:
+                v1.move_to(curve.get_point(ta))
+                v2.move_to(curve.get_point(tb))
+            steps.append(
+                {
+                    "length": float(edge.length),
+                    "desc": edge.description,
+                    "pts": [fl(p) for p in edge.point_array],
+                    "param_start": float(edge.param_start),
+                    "param_end": float(edge.param_end),
+                    "expected_pts": [fl(p) for p in curve.discretize(ta, tb, case["n_points"] + 2)][1:-1],
+                    "expected_len": float(curve.get_length(ta, tb)),
+                }
+            )
+        return {"steps": steps}
+
     # ------------------------------------------------------------------ model
     def requests(self, case: dict, impl: Any) -> List[str]:
         kind = case["kind"]
@@ -428,6 +602,11 @@ class C16(core.Check):
         elif kind == "analytic" and case["curve"] == "helix":
             for (a, b), o in zip(case["pairs"], impl["pairs"]):
                 reqs.append(f"c16.linspace {core.rat(a)} {core.rat(b)} {case['count']}")
+        elif kind == "tf" and case["curve"] == "linear":
+            for a, b in case["pairs"]:
+                reqs.append(f"c16.ilen {_vecs(impl['moved'])} {core.rat(a)} {core.rat(b)} {eps}")
+            for q in impl["queries"]:
+                reqs.append(f"c16.lclosest {_vecs(impl['moved'])} {_vec(q['p'])} {eps}")
         elif kind == "edge":
             reqs.append(f"c16.parray {len(impl['pts']) + 2}")
         elif kind == "bad":
@@ -500,6 +679,24 @@ class C16(core.Check):
                 if len(rec) != len(want) or not max(abs(x - y) for x, y in zip(rec, want)) <= 1e-12 * max(1.0, abs(a), abs(b)):
                     return f"discretize({a}, {b}, {case['count']}) evaluates the curve at {rec[:3]}…, model linspace {want[:3]}…"
             return None
+        if kind == "tf":
+            it = iter(model)
+            sc = _scale(impl["moved"])
+            for (a, b), l in zip(case["pairs"], impl["pairs"]):
+                ans = next(it).split()
+                if ans[0] != "ok":
+                    return f"get_length({a}, {b}) after {case['ops']}: model {ans}"
+                ml = float(core.parse_rat(ans[1]))
+                if not abs(ml - l) <= TOL * sc * 10:
+                    return f"get_length({a}, {b}) right after {[o[0] for o in case['ops']]}: implementation {l}, model on the moved points {ml}"
+            for q in impl["queries"]:
+                ans = next(it).split()
+                if ans[0] != "ok":
+                    return f"get_closest_param after transform: model {ans}"
+                md = math.sqrt(float(core.parse_rat(ans[3])))
+                if not abs(md - q["d"]) <= TOL * sc * 10:
+                    return f"get_closest_param({q['p']}) right after {[o[0] for o in case['ops']]}: implementation t={q['t']} at {q['d']}, model at {md}"
+            return None
         if kind == "edge":
             k = len(impl["pts"]) + 2
             want = "[" + ",".join(str(i) for i in range(1, k - 1)) + "]"
@@ -533,6 +730,81 @@ class C16(core.Check):
             case.get("curve", kind), "AnalyticCurve"
         )
 
+        if kind == "tf":
+            moved = impl["moved"]
+            sc = _scale(moved)
+            tol = TOL * sc * 10
+            after = "after-" + "+".join(sorted({o[0] for o in case["ops"]}))
+            knots, point, total_len = _own_linear(moved)
+            if len(impl["params"]) != len(knots) or not max(abs(x - y) for x, y in zip(impl["params"], knots)) <= 1e-9:
+                bad(f"InterpolatorBase.params:stale:{after}", f"parameters {impl['params']}, chord-length parameters of the moved points {knots}")
+            if not abs(impl["full"] - total_len) <= tol:
+                bad(f"{cname}.length:polyline:{after}", f"length {impl['full']}, polyline through the moved points {total_len}", impl["full"], total_len)
+            for i, (p, q) in enumerate(zip(impl["through"], moved)):
+                if not _dist(p, q) <= tol:
+                    bad(f"{cname}.get_point:not-through-defining-point:{after}", f"point {i}: {p} instead of {q}")
+                    break
+            if case["curve"] == "linear":
+                for (a, b), l in zip(case["pairs"], impl["pairs"]):
+                    if not abs(l - abs(b - a) * total_len) <= tol:
+                        bad(f"{cname}.get_length:polyline:{after}", f"get_length({a}, {b}) = {l}, polyline between the parameters {abs(b - a) * total_len}")
+                l1, l2, l3 = impl["triple"]
+                if not abs(l1 + l2 - l3) <= tol:
+                    bad(f"{cname}.get_length:not-additive:{after}", f"{case['triple']}: {l1} + {l2} != {l3}")
+            for q in impl["queries"]:
+                slack = tol if case["curve"] == "linear" else TOL_MIN * sc * 10
+                if not (0.0 <= q["t"] <= 1.0) or not q["d"] <= q["scan_min"] + slack:
+                    bad(
+                        f"{cname}.get_closest_param:not-closest:{after}",
+                        f"query {q['p']}: parameter {q['t']} is {q['d']} away, a {N_SCAN}-point scan finds {q['scan_min']}",
+                        q["d"],
+                        q["scan_min"],
+                    )
+            return out
+        if kind == "edge_hist":
+            which = case["curve"]
+            for k, (st, t) in enumerate(zip(impl["steps"], case["steps"])):
+                when = "" if k == 0 else ":after-moving-vertices"
+                sc = _scale(st["pts"] + st["expected_pts"]) if st["pts"] else 1.0
+                tol = TOL_MIN * sc * 10
+                first = st["desc"].split("\n")[-1]
+                nums: List[float] = []
+                ok = first.startswith("\tspline 0 1 (")
+                if ok:
+                    try:
+                        nums = [float(x) for x in first[first.index("(") :].replace("(", " ").replace(")", " ").split()]
+                    except ValueError:
+                        ok = False
+                flat = [x for p in st["expected_pts"] for x in p]
+                if not ok or len(nums) != len(flat) or any(not abs(a - b) <= 1e-8 + tol for a, b in zip(nums, flat)):
+                    bad(
+                        f"CurveEdge.description:{which}{when}",
+                        f"step {k}: written list {first[:100]!r} is not the curve between the vertices' parameters {t}",
+                        first,
+                        st["expected_pts"],
+                    )
+                if len(st["pts"]) != len(st["expected_pts"]) or any(
+                    not _dist(p, q) <= tol for p, q in zip(st["pts"], st["expected_pts"])
+                ):
+                    bad(
+                        f"OnCurveEdge.point_array:{which}{when}",
+                        f"step {k}: points are not the curve points between the parameters {t} of the two vertices",
+                        st["pts"],
+                        st["expected_pts"],
+                    )
+                if not (
+                    abs(st["param_start"] - t[0]) <= 1e-5 * max(1.0, abs(t[0]))
+                    and abs(st["param_end"] - t[1]) <= 1e-5 * max(1.0, abs(t[1]))
+                ):
+                    bad(f"OnCurveEdge.param:{which}{when}", f"step {k}: vertex parameters {st['param_start']}, {st['param_end']} instead of {t}")
+                if not abs(st["length"] - st["expected_len"]) <= max(TOL_MIN * 10, 1e-5) * max(1.0, st["expected_len"]):
+                    bad(
+                        f"OnCurveEdge.length:{which}{when}",
+                        f"step {k}: length {st['length']}, curve length between the parameters {st['expected_len']}",
+                        st["length"],
+                        st["expected_len"],
+                    )
+            return out
         if kind == "edge":
             which = case["curve"]
             pts, ends = impl["pts"], impl["ends"]
@@ -586,7 +858,7 @@ class C16(core.Check):
         if impl.get("errors"):
             return out
         pts = case.get("points")
-        sc = _scale(pts) if pts else _scale([case.get("p1", [1]), case.get("p2", [1]), case.get("origin", [1]), [case.get("r", 1)]])
+        sc = _scale(pts) if pts else _scale([v for v in (case.get("p1"), case.get("p2"), case.get("origin"), [case.get("r", 1)]) if isinstance(v, list)])
         tol = TOL * sc * 10
         own = _own_linear(pts) if kind == "linear" else None
         for (a, b), o in zip(case["pairs"], impl["pairs"]):
@@ -664,7 +936,9 @@ class C16(core.Check):
 
     def classify(self, case, impl):
         k = case["kind"]
-        if k in ("analytic", "edge", "bad"):
+        if k == "tf":
+            return "tf:" + case["curve"] + ":" + "+".join(sorted({o[0] for o in case["ops"]})) + ":" + case["mode"]
+        if k in ("analytic", "edge", "bad", "edge_hist"):
             return f"{k}:{case['curve']}"
         return k
 
